@@ -76,7 +76,7 @@ def fixes(spec, v):
 
 @st.composite
 def free_member(draw, dim, allow_step=False):
-    kinds = ['pin', 'clamp', 'grid'] + (['tie', 'tie'] if dim >= 2 else []) + (['step', 'step'] if allow_step else [])
+    kinds = ['pin', 'clamp', 'grid'] + (['tie', 'tie'] if dim >= 2 else []) + (['step'] * 5 if allow_step else [])
     kind = draw(st.sampled_from(kinds))
     i = draw(st.integers(0, dim - 1))
     if kind == 'pin':
@@ -631,9 +631,9 @@ TESTS = [
     Test('comb', run_comb, strategy=lambda tier: comb_cases(tier),
          examples={'quick': 20000, 'thorough': 600000}),
     Test('coupler', run_coupler, strategy=lambda tier: coupler_cases(tier),
-         examples={'quick': 8000, 'thorough': 300000}),
+         examples={'quick': 6000, 'thorough': 200000}),
     Test('penalty', run_penalty, strategy=lambda tier: penalty_cases(tier),
-         examples={'quick': 10000, 'thorough': 300000}),
+         examples={'quick': 8000, 'thorough': 250000}),
 ]
 
 
